@@ -231,6 +231,14 @@ def check(run):
                              quality=False, scored_only=False, ndocs=(8, 16), qgen=anyq)
     judge_traces(run, "C11", trs2, meta2, "c11-any")
     report_notimpl(run, meta2)
+    # longer lists with a regular shape: one term in every document, one in every 2nd/3rd, a sparse third one
+    # (targets of skip_to fall between the postings of the sparse side while the dense side has some there)
+    from harness.props import c12
+    trs3, meta3, _ = collect(run, rng, 5 if quick else 40, 16 if quick else 24, "exact", lambda rec, m: (0,),
+                             quality=False, ndocs=(12, 30), nsteps=(6, 16), docgen=c12.stepped_docs,
+                             qgen=c12.stepped_query, plangen=c12.stepped_plan, blocklimits=(1, 2, 3, 4, None))
+    judge_traces(run, "C11", trs3, meta3, "c11-stepped")
+    report_notimpl(run, meta3)
     from harness.props import c01
     rejects = qobs.judge(run, cases)
     for ci, qi, oi, exp in rejects:
